@@ -76,20 +76,29 @@ func ruleEANAssembly(c *Ctx) {
 			}
 		}
 		body := hdr.Succs[0]
-		var first, last, centre, data *ssa.Call
-		for _, call := range callsTo(fn, addBit) {
+		// guard bars may be appended directly or through small helpers: search one level deep
+		var first, last, centre, data ssa.Instruction // the instruction in fn itself (call of AddBit or of the helper)
+		var centreSite *DeepSite
+		for _, site := range c.P.deepCallsTo(fn, addBit) {
+			call := site.Ins.(*ssa.Call)
+			var top ssa.Instruction = call
+			if len(site.Path) > 0 {
+				top = site.Path[0]
+			}
 			if bits, ok := constBoolList(call.Common().Args[1]); ok {
 				switch {
-				case bits == "101" && !hdr.Dominates(call.Block()):
-					first = call
+				case bits == "101" && !hdr.Dominates(top.Block()):
+					first = top
 				case bits == "101":
-					last = call
+					last = top
 				case bits == "01010":
-					centre = call
+					centre = top
+					cp := site
+					centreSite = &cp
 				default:
 					c.Check(R, v.name+"/guard", call.Pos(), false, "101 or 01010", bits)
 				}
-			} else {
+			} else if len(site.Path) == 0 {
 				data = call
 			}
 		}
@@ -102,7 +111,8 @@ func ruleEANAssembly(c *Ctx) {
 			if v.mid == 7 {
 				ref = fmt.Sprintf("ok && pos != 0 && pos == %d", v.mid)
 			}
-			c.expectCond(R, v.name+"/centre-guard-iff", centre.Pos(), projectOK(n, fn, body, centre.Block()), ref)
+			projectOK(n, fn, body, centre.Block())
+			c.expectCond(R, v.name+"/centre-guard-iff", centre.Pos(), n.ReachCondDeep(fn, body, *centreSite), ref)
 		}
 		if data == nil {
 			c.Check(R, v.name+"/digits", fn.Pos(), false, "digit patterns appended", "no AddBit(data...)")
@@ -111,7 +121,7 @@ func ruleEANAssembly(c *Ctx) {
 		if centre != nil {
 			c.Check(R, v.name+"/centre-before-digit", data.Pos(), !dominatesInstr(data, centre), "centre guard precedes the digit at that position", "ok")
 		}
-		dphi, ok := data.Common().Args[1].(*ssa.Phi)
+		dphi, ok := data.(*ssa.Call).Common().Args[1].(*ssa.Phi)
 		if !ok {
 			c.Undecided(R, v.name+"/set-selection", data.Pos(), "pattern is not selected per position")
 			continue
